@@ -145,8 +145,9 @@ static char* add_tag_enclosed(Tag *tag, char* s)
 	char *head = s, *tail = s;
 	while(*head)
 	{
-		if(*head == '\\' && *++head)
+		if(*head == '\\' && head[1])
 		{
+			head++;
 			if(*head == 'n')
 				*head = '\n';
 			else if(*head == 't')
